@@ -420,6 +420,7 @@ Proof.
   - rewrite Hst, Htape. exact (i_tape _ _ _ I).
   - intros e en Hn Hf. rewrite Hst, Hents in Hn. rewrite Hst, Hcs. apply (i_csc _ _ _ I e en Hn Hf).
   - intros x Hm. rewrite Hst, Hcs in Hm. rewrite Hst, Hents. apply (i_csb _ _ _ I x Hm).
+  - intros e en Hn Hm. rewrite Hst, Hents in Hn. rewrite Hst, Hcs in Hm. apply (i_cse _ _ _ I e en Hn Hm).
   - rewrite Hst, Hlast. pose proof (i_clk _ _ _ I). lia.
   - intros e en Hn. rewrite Hst, Hents in Hn. destruct (i_clke _ _ _ I e en Hn) as (A & B). rewrite Hst.
     split; [lia|]. intros sd. specialize (B sd). change (getx w' e sd) with (getx w e sd). lia.
@@ -505,30 +506,32 @@ Proof.
 Qed.
 
 Lemma fill_one_pres g w e sd w' : Inv g w -> (2 <= e)%nat -> fill_one w e sd = ROk w' ->
-  Inv g w' /\ (forall x sd0, x_tfile (getx w' x sd0) = x_tfile (getx w x sd0)) /\ (forall sd0, prov_of w' sd0 = prov_of w sd0).
+  Inv g w' /\ (forall x sd0, x_tfile (getx w' x sd0) = x_tfile (getx w x sd0)) /\ (forall sd0, prov_of w' sd0 = prov_of w sd0) /\
+  (forall x, set_mem x (cset (w_st w)) = true -> set_mem x (cset (w_st w')) = true).
 Proof.
   intros I He H. unfold fill_one in H. unfold get_e, lift, get_ent in H.
   destruct (nth_error (ents (w_st w)) e) as [en|]; [|discriminate]. cbn [rbind] in H.
   match type of H with (if ?B then _ else _) = _ => destruct B end.
-  - destruct (get_latest_pres (real_evl w) g w e false [sd] w' I He H) as (I1 & Hp & Hgx & _ & Htf & _).
+  - destruct (get_latest_pres (real_evl w) g w e false [sd] w' I He H) as (I1 & Hp & Hgx & _ & Htf & _ & Hmono).
     split.
     + unfold Inv. apply (InvP_ext (real_evl w)); [intros sd0; unfold real_evl; rewrite Hp; reflexivity|exact I1].
-    + split; [|exact Hp]. intros x sd0. destruct (Nat.eq_dec x e) as [->|Hne]; [apply Htf|rewrite Hgx by exact Hne; reflexivity].
+    + split; [|split; [exact Hp|exact Hmono]]. intros x sd0. destruct (Nat.eq_dec x e) as [->|Hne]; [apply Htf|rewrite Hgx by exact Hne; reflexivity].
   - injection H as <-. auto.
 Qed.
 
 Lemma fill_paths_pres g : forall order w w', Inv g w -> Forall (fun e => (2 <= e)%nat) order -> fill_paths w order = ROk w' ->
-  Inv g w' /\ (forall x sd0, x_tfile (getx w' x sd0) = x_tfile (getx w x sd0)) /\ (forall sd0, prov_of w' sd0 = prov_of w sd0).
+  Inv g w' /\ (forall x sd0, x_tfile (getx w' x sd0) = x_tfile (getx w x sd0)) /\ (forall sd0, prov_of w' sd0 = prov_of w sd0) /\
+  (forall x, set_mem x (cset (w_st w)) = true -> set_mem x (cset (w_st w')) = true).
 Proof.
   induction order as [|e r IH]; intros w w' I Hall H.
   - simpl in H. injection H as <-. auto.
   - simpl in H. inversion Hall as [|? ? He Hr]; subst.
     destruct (fill_one w e false) as [w1|c] eqn:E1; [|discriminate]. cbn [rbind] in H.
     destruct (fill_one w1 e true) as [w2|c] eqn:E2; [|discriminate]. cbn [rbind] in H.
-    destruct (fill_one_pres g w e false w1 I He E1) as (I1 & T1 & P1).
-    destruct (fill_one_pres g w1 e true w2 I1 He E2) as (I2 & T2 & P2).
-    destruct (IH w2 w' I2 Hr H) as (I3 & T3 & P3). split; [exact I3|]. split; [intros x sd0; rewrite T3, T2, T1; reflexivity|].
-    intros sd0. rewrite P3, P2, P1. reflexivity.
+    destruct (fill_one_pres g w e false w1 I He E1) as (I1 & T1 & P1 & M1).
+    destruct (fill_one_pres g w1 e true w2 I1 He E2) as (I2 & T2 & P2 & M2).
+    destruct (IH w2 w' I2 Hr H) as (I3 & T3 & P3 & M3). split; [exact I3|]. split; [intros x sd0; rewrite T3, T2, T1; reflexivity|].
+    split; [intros sd0; rewrite P3, P2, P1; reflexivity|]. intros x Hm. apply M3, M2, M1. exact Hm.
 Qed.
 
 (* ------------------------------------------------------------------ SyncManager.do: one sync step *)
@@ -550,7 +553,7 @@ Proof.
     destruct (i_roots _ _ _ I) as (e0 & e1 & _ & _ & _ & _ & _ & _ & _ & _ & _ & _ & _ & _ & _ & M0 & M1).
     destruct x as [|[|x]]; [congruence|congruence|lia]. }
   destruct (fill_paths w ord) as [w1|c] eqn:Ef; [|discriminate]. cbn [rbind] in H.
-  destruct (fill_paths_pres g ord w w1 I Hord Ef) as (I1 & T1 & P1).
+  destruct (fill_paths_pres g ord w w1 I Hord Ef) as (I1 & T1 & P1 & _).
   assert (O2: OwnFrame g w (fst (tick w1))).
   { apply OwnFrame_prov. intros sd. unfold tick. cbn [fst]. rewrite prov_of_with_st. apply P1. }
   assert (Htick: tick w1 = (fst (tick w1), now (w_st w1) + 1000)) by reflexivity.
